@@ -2,3 +2,4 @@ import Properties.C02
 import Properties.C10
 import Properties.C17
 import Properties.C07
+import Properties.C06
